@@ -95,30 +95,33 @@ def debug_render(val):
 
 # ---- pattern semantics --------------------------------------------------------------------
 
-def pat_matches(p, val):
-    """True / False / None (undetermined)"""
+def pat_matches(p, val, env=None):
+    """True / False / None (undetermined).  If env (dict) is given, bindings are recorded in it
+    (only meaningful when the result is True)."""
     k = p["k"]
     if k in ("wild", "missing"):
         return True
     if k == "bind":
+        if env is not None:
+            env[p["n"]] = val
         if "sub" in p:
-            return pat_matches(p["sub"], val)
+            return pat_matches(p["sub"], val, env)
         return True
     if k in ("deref", "derefpat"):
-        return pat_matches(p["p"], val)
+        return pat_matches(p["p"], val, env)
     if k == "or":
         res = False
         for q in p["ps"]:
-            r = pat_matches(q, val)
+            r = pat_matches(q, val, env)
             if r is True:
                 return True
             if r is None:
                 res = None
         return res
     if k == "guard":
-        r = pat_matches(p["p"], val)
+        r = pat_matches(p["p"], val, env)
         return None if r else r
-    if val[0] == "any":
+    if val[0] in ("any", "sym", "app", "undet"):
         return None
     if k == "variant":
         if val[0] != "v":
@@ -132,7 +135,7 @@ def pat_matches(p, val):
                 # positional field: take by index
                 vals = list(val[3].values())
                 fv = vals[name] if name < len(vals) else ANY
-            r = pat_matches(sp, fv)
+            r = pat_matches(sp, fv, env)
             if r is False:
                 return False
             if r is None:
@@ -143,7 +146,7 @@ def pat_matches(p, val):
             res = True
             for name, sp in p["sub"]:
                 fv = val[1][name] if isinstance(name, int) and name < len(val[1]) else ANY
-                r = pat_matches(sp, fv)
+                r = pat_matches(sp, fv, env)
                 if r is False:
                     return False
                 if r is None:
@@ -152,7 +155,7 @@ def pat_matches(p, val):
         if val[0] == "v":
             res = True
             for name, sp in p["sub"]:
-                r = pat_matches(sp, val[3].get(name, ANY))
+                r = pat_matches(sp, val[3].get(name, ANY), env)
                 if r is False:
                     return False
                 if r is None:
@@ -183,16 +186,28 @@ def pat_matches(p, val):
     return None
 
 
-def first_arm(match_node, val):
+def first_arm(match_node, val, env=None, guard=None):
     """index of the first arm that certainly matches; None if undetermined before a sure match.
-    An arm with a guard counts as undetermined when its pattern matches."""
+    An arm with a guard counts as undetermined when its pattern matches, unless `guard(arm, env)`
+    decides it (True/False/None).  Bindings of the chosen arm are recorded in env."""
     for i, arm in enumerate(match_node["arms"]):
-        r = pat_matches(arm["p"], val)
+        e2 = {} if env is not None else None
+        r = pat_matches(arm["p"], val, e2)
         if r is None:
             return None
         if r:
             if arm.get("g") is not None:
-                return None
+                if guard is None:
+                    return None
+                scope = dict(env or {})
+                scope.update(e2 or {})
+                g = guard(arm, scope)
+                if g is None:
+                    return None
+                if g is False:
+                    continue
+            if env is not None:
+                env.update(e2)
             return i
     return None
 
